@@ -86,7 +86,7 @@ Qed.
 
 (* ---------------------------------------------------------------- the two passes of a frame, any configuration *)
 Definition fxof (C : xcfg) (sh : shape) (a t : N) (o : oval) : fx :=
-  {| x_read := negb (read_of C a =? 0); x_evs := reads C a t o;
+  {| x_nent := length (reads C a t o); x_read := negb (read_of C a =? 0); x_evs := reads C a t o;
      x_asz := match sh with PG => o_asz o | CYG => None end |}.
 
 Lemma asz_ok_sh sh o : asz_ok (o_asz o) -> asz_ok (match sh with PG => o_asz o | CYG => None end).
@@ -153,7 +153,7 @@ Section stream.
   Lemma s_leave_rec s X w a t0 o0 r d t1 o1 anc axs dd :
     stack s = nf sh w a t0 r d :: anc -> xs X = fxof C sh a t0 o0 :: axs ->
     fc s = fcd dd -> enabled s = true -> t0 < t1 -> t1 < 18446744073709551616 -> asz_ok (o_asz o0) ->
-    exists x1, x_evs x1 = reads C a t0 o0 ++ diffs C a t1 o0 o1 /\
+    exists x1, (x_evs x1 = reads C a t0 o0 ++ diffs C a t1 o0 o1 /\ x_nent x1 = length (reads C a t0 o0)) /\
       x_leave C s X t1 o1 =
       (let X1 := x_watch C (set_end (nf sh w a t0 r d) t1) (N.of_nat (length anc)) o1 (set_xs X axs) in
        let '(its, p') := x_rtd (set_end (nf sh w a t0 r d) t1) x1 anc axs (pend X1) in emit X1 its p').
@@ -162,7 +162,8 @@ Section stream.
     set (top1 := set_end (nf sh w a t0 r d) t1).
     exists (if x_read (fxof C sh a t0 o0) then save_trigger_read C top1 o1 true (fxof C sh a t0 o0) else fxof C sh a t0 o0).
     split.
-    - apply exit_pass; [|subst top1; destruct w; reflexivity|exact Hasz].
+    - split; [|destruct (x_read (fxof C sh a t0 o0)); reflexivity].
+      apply exit_pass; [|subst top1; destruct w; reflexivity|exact Hasz].
       subst top1. unfold ts_of. cbn [set_end f_end]. assert (E : (t1 =? 0) = false) by (apply N.eqb_neq; lia).
       rewrite E. reflexivity.
     - unfold x_leave. change (xb C) with c. rewrite Hst, Hxs. cbn [hd tl].
@@ -180,24 +181,19 @@ Section stream.
       rewrite EC by lia.
       assert (E0 : (0 <=? t1 - t0) = true) by (apply N.leb_le; lia). rewrite E0. cbn [orb]. reflexivity.
   Qed.
-  Lemma take_eq_gen t0 t1 rs ds : t0 <> t1 -> Forall (fun e => e_time e = t0) rs -> Forall (fun e => e_time e = t1) ds ->
-    take_eq t0 (rs ++ ds) = rs /\ filter (fun e => e_time e =? t1) (rs ++ ds) = ds.
+  Lemma take_eq_pass t0 t1 rs ds : Forall (fun e => e_time e = t0) rs -> Forall (fun e => e_time e = t1) ds ->
+    take_eq t0 (firstn (length rs) (rs ++ ds)) = rs /\
+    filter (fun e => e_time e =? t1) (skipn (length rs) (rs ++ ds)) = ds.
   Proof.
-    intros Hne Hr Hd. split.
-    - induction Hr as [|e r He _ IH]; cbn [app take_eq].
-      + destruct Hd as [|e d He _]; [reflexivity|]. cbn [take_eq].
-        assert (E : (e_time e =? t0) = false) by (apply N.eqb_neq; congruence). rewrite E. reflexivity.
-      + rewrite He, N.eqb_refl, IH. reflexivity.
-    - rewrite filter_app.
-      assert (A : filter (fun e => e_time e =? t1) rs = []).
-      { induction Hr as [|e r He _ IH]; [reflexivity|]. cbn [filter].
-        assert (E : (e_time e =? t1) = false) by (apply N.eqb_neq; congruence). rewrite E. exact IH. }
-      rewrite A. cbn [app]. induction Hd as [|e d He _ IH]; [reflexivity|]. cbn [filter]. rewrite He, N.eqb_refl, IH.
-      reflexivity.
+    intros Hr Hd. rewrite firstn_app, skipn_app, Nat.sub_diag, firstn_all, skipn_all. cbn [firstn skipn app].
+    rewrite app_nil_r. split.
+    - induction Hr as [|e r He _ IH]; [reflexivity|]. cbn [take_eq]. rewrite He, N.eqb_refl, IH. reflexivity.
+    - induction Hd as [|e d He _ IH]; [reflexivity|]. cbn [filter]. rewrite He, N.eqb_refl, IH. reflexivity.
   Qed.
 
   Lemma x_rtd_rec w a t0 r d t1 x1 rs ds anc axs P :
-    t0 < t1 -> x_evs x1 = rs ++ ds -> Forall (fun e => e_time e = t0) rs -> Forall (fun e => e_time e = t1) ds ->
+    t0 < t1 -> x_evs x1 = rs ++ ds /\ x_nent x1 = length rs ->
+    Forall (fun e => e_time e = t0) rs -> Forall (fun e => e_time e = t1) ds ->
     Forall (fun a => atime a < t1) P ->
     x_rtd (set_end (nf sh w a t0 r d) t1) x1 anc axs P =
     if w then (map IE (map a_ev P) ++ map IE ds ++ [IR {| r_time := t1; r_type := EXIT; r_depth := r; r_addr := a |}], [])
@@ -206,8 +202,8 @@ Section stream.
          (its ++ map IE fl ++ [IR {| r_time := t0; r_type := ENTRY; r_depth := r; r_addr := a |}] ++ map IE rs ++
           map IE (map a_ev p2) ++ map IE ds ++ [IR {| r_time := t1; r_type := EXIT; r_depth := r; r_addr := a |}], []).
   Proof.
-    intros Ht Hev Hr Hd HP.
-    destruct (take_eq_gen t0 t1 rs ds) as [Htk Hfl]; [lia|exact Hr|exact Hd|].
+    intros Ht [Hev Hn] Hr Hd HP.
+    destruct (take_eq_pass t0 t1 rs ds) as [Htk Hfl]; [exact Hr|exact Hd|].
     set (top1 := set_end (nf sh w a t0 r d) t1).
     unfold x_rtd.
     assert (Hw : written (f_flags top1) = w) by (subst top1; destruct w; reflexivity). rewrite Hw.
@@ -220,13 +216,13 @@ Section stream.
     assert (Hext : exit_rec top1 = {| r_time := t1; r_type := EXIT; r_depth := r; r_addr := a |})
       by (subst top1; destruct w; reflexivity).
     destruct w; cbn [orb].
-    - unfold x_exit. rewrite He1, (pop_lt_all t1 P HP), Hev, Hfl, Hext. cbn [app]. reflexivity.
+    - unfold x_exit. rewrite He1, (pop_lt_all t1 P HP), Hn, Hev, Hfl, Hext. cbn [app]. reflexivity.
     - pose proof (Forall_xflush _ anc axs P HP) as HP1.
       destruct (xflush_anc anc axs P) as [its p1]. cbn [snd] in HP1.
       unfold x_entry. rewrite Hs0.
       pose proof (Forall_pop_lt _ t0 p1 HP1) as HP2.
       destruct (pop_lt t0 p1) as [fl p2]. cbn [snd] in HP2.
-      unfold x_exit. rewrite He1, (pop_lt_all t1 p2 HP2), Hev, Htk, Hfl, Hent, Hext.
+      unfold x_exit. rewrite He1, (pop_lt_all t1 p2 HP2), Hn, Hev, Htk, Hfl, Hent, Hext.
       rewrite <- !app_assoc. reflexivity.
   Qed.
 
@@ -393,8 +389,8 @@ Section stream.
       destruct (xflush_anc (stack s) (xs X) (pend X)) as [its0 p10]. cbn [fst snd] in *.
       unfold x_entry.
       assert (Hs0 : f_start (nf sh false a t (ridx s) d) = t) by reflexivity. rewrite Hs0.
-      assert (TK : take_eq t (x_evs (fxof C sh a t o)) = reads C a t o)
-        by (cbn [fxof x_evs]; rewrite reads_eq; apply take_eq_all).
+      assert (TK : take_eq t (firstn (x_nent (fxof C sh a t o)) (x_evs (fxof C sh a t o))) = reads C a t o)
+        by (cbn [fxof x_evs x_nent]; rewrite firstn_all, reads_eq; apply take_eq_all).
       rewrite TK.
       assert (Hlt10 : Forall (fun a0 => atime a0 < t) p10)
         by (eapply Forall_impl; [|exact HP1]; cbn; intros; lia).
@@ -540,8 +536,8 @@ Section stream.
         cbn iota. rewrite EF. unfold x_entry.
         repeat match goal with |- context [f_start ?f] => change (f_start f) with t0 end.
         rewrite EP. cbn [fst snd].
-        assert (TK : take_eq t0 (x_evs (fxof C sh a t0 o0)) = reads C a t0 o0)
-          by (cbn [fxof x_evs]; rewrite reads_eq; apply take_eq_all).
+        assert (TK : take_eq t0 (firstn (x_nent (fxof C sh a t0 o0)) (x_evs (fxof C sh a t0 o0))) = reads C a t0 o0)
+          by (cbn [fxof x_evs x_nent]; rewrite firstn_all, reads_eq; apply take_eq_all).
         rewrite TK, Hxo. rewrite !map_app, !map_map. cbn [map]. unfold wev, hitem.
         rewrite <- !app_assoc. cbn [app]. rewrite ?app_nil_r, ?map_app, ?map_map. cbn [map app].
         rewrite ?map_app, ?map_map. reflexivity.
